@@ -2690,6 +2690,13 @@ class Interferometer(Decomposition):
             decomp_fn = getattr(dec, mesh)
             BS1, R, BS2 = decomp_fn(self.p[0], tol=tol)
 
+            if mesh == "triangular":
+                # The triangular decomposition returns the T unitaries that null U, i.e.,
+                # T_1 ... T_k U = D. Hence U = T_k^-1 ... T_1^-1 D: the diagonal unitary is applied
+                # first, followed by the inverses of the T unitaries, like the second set of
+                # beamsplitters of the rectangular decomposition.
+                BS1, BS2 = [], list(reversed(BS1))
+
             for n, m, theta, phi, _ in BS1:
                 theta = theta if np.abs(theta) >= _decomposition_tol else 0
                 phi = phi if np.abs(phi) >= _decomposition_tol else 0
